@@ -420,6 +420,12 @@ func runC20(c *Ctx) {
 					if b, ok := x.Call.Value.(*ssa.Builtin); ok && (b.Name() == "copy" || b.Name() == "clear") && len(x.Call.Args) > 0 && fromBuf(x.Call.Args[0]) {
 						writes = append(writes, in)
 					}
+					// append to a truncated view of the buffer (buffer[:k]) writes over the elements behind k
+					if b, ok := x.Call.Value.(*ssa.Builtin); ok && b.Name() == "append" && len(x.Call.Args) > 0 {
+						if sl, isSl := stripConv(x.Call.Args[0]).(*ssa.Slice); isSl && sl.High != nil && fromBuf(sl.X) {
+							writes = append(writes, in)
+						}
+					}
 				case *ssa.Store:
 					if ia, ok := x.Addr.(*ssa.IndexAddr); ok && fromBuf(ia.X) {
 						writes = append(writes, in)
